@@ -185,7 +185,7 @@ theorem clean_parts {rx : Rx} {l : Leaf} (h : Clean rx l = true) :
     (l.c.jt = some .string → skipRegexBase (primOf l.c) = false ∨ l.c.pattern = none) := by
   unfold Clean at h
   simp only [Bool.and_eq_true, Bool.not_eq_true', Bool.or_eq_true] at h
-  obtain ⟨⟨⟨⟨⟨⟨⟨⟨h1, h2⟩, h3⟩, h4⟩, h5⟩, h6⟩, h7⟩, h8⟩, h9⟩ := h
+  obtain ⟨⟨⟨⟨⟨⟨⟨⟨⟨h1, h2⟩, h3⟩, h4⟩, h5⟩, h6⟩, h7⟩, _⟩, h8⟩, h9⟩ := h
   refine ⟨h1, h2, h3, h4, h5, h6, h7, ?_, ?_⟩
   · intro hn
     cases h8 with
@@ -195,6 +195,11 @@ theorem clean_parts {rx : Rx} {l : Leaf} (h : Clean rx l = true) :
     rw [hj] at h9
     simp only [Bool.or_eq_true, Bool.not_eq_true', Option.isNone_iff_eq_none] at h9
     exact h9
+
+theorem clean_not_wrapped {rx : Rx} {l : Leaf} (h : Clean rx l = true) : l.c.isWrapped = false := by
+  unfold Clean at h
+  simp only [Bool.and_eq_true, Bool.not_eq_true', Bool.or_eq_true] at h
+  exact h.1.1.2
 
 theorem leafJ_of (rx : Rx) (req : Bool) (l : Leaf) (fp : Prim) (as : List VAttr) (v : LV)
     (ht : as.all (VAttr.typed fp) = true)
@@ -258,6 +263,7 @@ theorem leaf_num (rx : Rx) (req nl : Bool) (l : Leaf) (n : Num) (hc : Clean rx l
       | single t => cases t <;> simp [hty'] at ht hnum'
       | nullable t => cases t <;> simp [hty'] at ht hnn ⊢ <;> exact hnn
       | other => simp [hty'] at ht
+      | wrapped t => have hw := clean_not_wrapped hc; simp [Cons.isWrapped, hty'] at hw
     have hsat : satisfies rx l.c l.items (.sc (.num n)) = true := by
       unfold Cons.hasNumericKw at hkw
       simp only [Bool.or_eq_false_iff, Option.isSome_eq_false_iff, Option.isNone_iff_eq_none] at hkw
@@ -277,6 +283,7 @@ theorem leaf_num (rx : Rx) (req nl : Bool) (l : Leaf) (n : Num) (hc : Clean rx l
           | single t => cases t <;> simp [hty'] at ht hfs
           | nullable t => cases t <;> simp [hty'] at ht hfs
           | other => simp [hty'] at ht
+          | wrapped t => first | rfl | (have hw := clean_not_wrapped hc; simp [Cons.isWrapped, hty'] at hw) | (simp [hty'] at *)
       · split
         · rename_i harr
           unfold lvTyped svTyped Cons.jt at ht
@@ -285,6 +292,7 @@ theorem leaf_num (rx : Rx) (req nl : Bool) (l : Leaf) (n : Num) (hc : Clean rx l
           | single t => cases t <;> simp [hty'] at ht harr
           | nullable t => cases t <;> simp [hty'] at ht harr
           | other => simp [hty'] at ht
+          | wrapped t => first | rfl | (have hw := clean_not_wrapped hc; simp [Cons.isWrapped, hty'] at hw) | (simp [hty'] at *)
         · exact fmt_accepts_num ..
     exact leafJ_of _ _ _ _ _ _ hty (fun _ => hsat) (fun _ _ => hacc)
 
@@ -315,6 +323,7 @@ theorem leaf_str (rx : Rx) (req nl : Bool) (l : Leaf) (s : List Char) (hc : Clea
     | single t => cases t <;> simp [hty'] at hjt ⊢ <;> exact henum
     | nullable t => cases t <;> simp [hty'] at hjt ⊢ <;> exact henum
     | other => simp [hty'] at hjt
+    | wrapped t => have hw := clean_not_wrapped hc; simp [Cons.isWrapped, hty'] at hw
   have hnum : l.c.isNumeric = false := by
     unfold Cons.isNumeric
     unfold Cons.jt at hjt
@@ -322,6 +331,7 @@ theorem leaf_str (rx : Rx) (req nl : Bool) (l : Leaf) (s : List Char) (hc : Clea
     | single t => cases t <;> simp [hty'] at hjt ⊢
     | nullable t => rfl
     | other => rfl
+    | wrapped t => rfl
   have hcomp : ∀ p, l.c.pattern = some p → rx.compiles p = true := by
     intro p hp
     unfold KnownUncompilableRegex at hunc
@@ -396,6 +406,7 @@ theorem leaf_list (rx : Rx) (req nl : Bool) (l : Leaf) (fp : Prim) (vs : List SV
     | single t => cases t <;> simp [hty'] at hjt ⊢
     | nullable t => rfl
     | other => rfl
+    | wrapped t => first | rfl | (have hw := clean_not_wrapped hc; simp [Cons.isWrapped, hty'] at hw) | (simp [hty'] at *)
   have hfs : l.c.isFreeformString = false := by
     unfold Cons.isFreeformString
     unfold Cons.jt at hjt
@@ -403,6 +414,7 @@ theorem leaf_list (rx : Rx) (req nl : Bool) (l : Leaf) (fp : Prim) (vs : List SV
     | single t => cases t <;> simp [hty'] at hjt ⊢
     | nullable t => cases t <;> simp [hty'] at hjt ⊢
     | other => simp [hty'] at hjt
+    | wrapped t => first | rfl | (have hw := clean_not_wrapped hc; simp [Cons.isWrapped, hty'] at hw) | (simp [hty'] at *)
   have hty := extract_typed rx req nl l.c fp (fun h => by rw [hnum] at h; cases h) hlit
   -- item part of the specification is vacuous on the clean fragment
   have hit : (match l.items with | some i => vs.all (satScalar rx i) | none => true) = true := by
@@ -437,6 +449,7 @@ theorem leaf_list (rx : Rx) (req nl : Bool) (l : Leaf) (fp : Prim) (vs : List SV
       | single t => cases t <;> simp [hty'] at hjt harr'
       | nullable t => cases t <;> simp [hty'] at hjt hna ⊢ <;> exact hna
       | other => simp [hty'] at hjt
+      | wrapped t => first | rfl | (have hw := clean_not_wrapped hc; simp [Cons.isWrapped, hty'] at hw) | (simp [hty'] at *)
     unfold Cons.hasArrayKw at hkw
     simp only [Bool.or_eq_false_iff, Option.isSome_eq_false_iff, Option.isNone_iff_eq_none] at hkw
     have hacc : acceptsAll rx fp (extract rx.compiles req l.c ⟨fp, nl⟩) (.list vs) = true := by
